@@ -146,7 +146,7 @@ func runCheck(repo, prop, tier string, keep bool, only string, verbose bool) int
 	if s := os.Getenv("VERIF_SEED"); s != "" {
 		seed, _ = strconv.ParseInt(s, 10, 64)
 	}
-	timeout := 20
+	timeout := 45
 	if tier == "thorough" {
 		timeout = 120
 	}
